@@ -265,6 +265,9 @@ func (x *restrictor) zeroStructNonRequired(st sel, t *idlgen.RType, nv *values.V
 // entersUnionElems: does some path of the tree step into a list/set/map whose ELEMENT type is a union or exception? The library
 // refuses such a path ("unspported type for fieldmask": switchFt gives Invalid for unions and exceptions).
 func entersUnionElems(s *idlgen.Schema, t *idlgen.RType, n *mnode) bool {
+	if n != nil && n.leaf && n.shadow != nil {
+		return entersUnionElems(s, t, n.shadow)
+	}
 	if n == nil || n.leaf {
 		return false
 	}
